@@ -471,7 +471,7 @@ def create_heat_exchanger(net, from_junction, to_junction, qext_w, inner_diamete
 
 
 def create_pipe(net, from_junction, to_junction, std_type, length_km, loss_coefficient=0,
-                sections=1, text_k=0, name=None, index=None,
+                sections=1, text_k=None, name=None, index=None,
                 geodata=None, in_service=True, type="pipe", **kwargs):
     """
     Creates a pipe element in net["pipe"] from pipe parameters.
